@@ -226,3 +226,149 @@ Example instance_run :
          (fun k => if N.eqb k 3 then None else Some (k * 16)%N) [] [1; 2; 1; 3; 4; 1]%N)
   = [ROk 16; ROk 32; ROk 16; RErr; ROk 64; ROk 16]%N.
 Proof. vm_compute. reflexivity. Qed.
+
+(** * The same interface with a relational ghost (added for the C06 instance)
+
+    [holds c k d]: "some buffer of the cache is known to contain the data [d]
+    inserted for key [k]".  A function [committed] as above is the special
+    case [holds c k d := committed c k = Some d]; the relational form does
+    not ask the instance to prove that at most one buffer is labelled with a
+    key.  The client, [read], [run] and [pure_answer] are the ones above.
+
+    A second ghost, [idle] / [sole], states the reference discipline of a
+    single-threaded reader: between two reads no reference is outstanding,
+    inside a read exactly one.  Under it a lookup is never refused. *)
+Section PageCacheRel.
+
+Variables (C H K D : Type).
+Variable init : C.
+Variable get : C -> K -> C * got H D.
+Variable insert : C -> H -> D -> C.
+Variable discard : C -> H -> C.
+Variable put : C -> H -> C.
+
+Variable Inv : C -> Prop.
+Variable holds : C -> K -> D -> Prop.
+Variable pending : C -> H -> K -> Prop.
+Variable held : C -> H -> Prop.
+
+(** known contents are never altered, only forgotten *)
+Definition forgets (c c' : C) : Prop := forall k d, holds c' k d -> holds c k d.
+
+Hypothesis init_inv : Inv init.
+Hypothesis init_empty : forall k d, ~ holds init k d.
+Hypothesis get_ok : forall c k c' g, Inv c -> get c k = (c', g) ->
+  Inv c' /\ forgets c c' /\
+  match g with
+  | Hit h d => holds c k d /\ held c' h
+  | Miss h => pending c' h k
+  | Busy => True
+  end.
+Hypothesis insert_ok : forall c h k d, Inv c -> pending c h k ->
+  Inv (insert c h d) /\ held (insert c h d) h /\
+  forall k' d', holds (insert c h d) k' d' -> (k' = k /\ d' = d) \/ holds c k' d'.
+Hypothesis discard_ok : forall c h k, Inv c -> pending c h k ->
+  Inv (discard c h) /\ forgets c (discard c h).
+Hypothesis put_ok : forall c h, Inv c -> held c h ->
+  Inv (put c h) /\ forgets c (put c h).
+
+Variable fill : K -> option D.
+
+Definition GoodR (c : C) : Prop :=
+  Inv c /\ forall k d, holds c k d -> fill k = Some d.
+
+Lemma goodr_forgets c c' : Inv c' -> forgets c c' -> GoodR c -> GoodR c'.
+Proof. intros Hi Hf [_ Hg]. split; [exact Hi|]. intros k d Hh. apply Hg, Hf, Hh. Qed.
+
+Lemma read_ok_rel c k c' r : GoodR c -> read C H K D get insert discard put fill c k = (c', r) ->
+  GoodR c' /\ (r = RBusy \/ r = pure_answer K D fill k).
+Proof.
+  intros Hgood. unfold read. destruct (get c k) as [c1 g] eqn:Hget.
+  destruct (get_ok _ _ _ _ (proj1 Hgood) Hget) as [Hi1 [Hs1 Hg]].
+  pose proof (goodr_forgets _ _ Hi1 Hs1 Hgood) as Hgood1.
+  destruct g as [h d|h|].
+  - destruct Hg as [Hc Hh]. intro E. inversion E; subst c' r; clear E.
+    destruct (put_ok _ _ Hi1 Hh) as [Hi2 Hs2].
+    split; [now apply goodr_forgets with (c := c1)|]. right.
+    unfold pure_answer. now rewrite (proj2 Hgood _ _ Hc).
+  - unfold pure_answer. destruct (fill k) as [d|] eqn:Hf; intro E; inversion E; subst c' r; clear E.
+    + destruct (insert_ok _ _ _ d Hi1 Hg) as [Hi2 [Hh2 Hoth]].
+      destruct (put_ok _ _ Hi2 Hh2) as [Hi3 Hs3].
+      split; [|now right]. apply goodr_forgets with (c := insert c1 h d); [exact Hi3|exact Hs3|].
+      split; [exact Hi2|]. intros k' d' Hc'.
+      destruct (Hoth k' d' Hc') as [[-> ->]|Hold]; [exact Hf|now apply (proj2 Hgood1)].
+    + destruct (discard_ok _ _ _ Hi1 Hg) as [Hi2 Hs2].
+      split; [now apply goodr_forgets with (c := c1)|now right].
+  - intro E. inversion E; subst c' r; clear E. split; [exact Hgood1|now left].
+Qed.
+
+Theorem pagecache_transparent_rel : forall ks,
+  Forall2 (fun k r => r = RBusy \/ r = pure_answer K D fill k) ks
+          (fst (run C H K D get insert discard put fill init ks)) /\
+  GoodR (snd (run C H K D get insert discard put fill init ks)).
+Proof.
+  assert (Hgen : forall ks c, GoodR c ->
+    Forall2 (fun k r => r = RBusy \/ r = pure_answer K D fill k) ks
+            (fst (run C H K D get insert discard put fill c ks)) /\
+    GoodR (snd (run C H K D get insert discard put fill c ks))).
+  { induction ks as [|k ks IH]; intros c Hg; [split; [constructor|exact Hg]|].
+    cbn [run]. destruct (read C H K D get insert discard put fill c k) as [c1 r] eqn:Hr.
+    destruct (read_ok_rel _ _ _ _ Hg Hr) as [Hg1 Hres].
+    destruct (IH c1 Hg1) as [H1 H2].
+    destruct (run C H K D get insert discard put fill c1 ks) as [rs c2]. cbn [fst snd] in *.
+    split; [constructor; assumption|exact H2]. }
+  intro ks. apply Hgen. split; [exact init_inv|]. intros k d Hc. exfalso. exact (init_empty k d Hc).
+Qed.
+
+(** ** the single-threaded reference discipline: never BUSY *)
+Variable idle : C -> Prop.                     (* no reference outstanding *)
+Variable sole : C -> H -> Prop.                (* [h] is the only reference outstanding *)
+
+Hypothesis init_idle : idle init.
+Hypothesis get_idle : forall c k c' g, Inv c -> idle c -> get c k = (c', g) ->
+  match g with
+  | Hit h _ => sole c' h
+  | Miss h => sole c' h
+  | Busy => False
+  end.
+Hypothesis insert_sole : forall c h k d, Inv c -> pending c h k -> sole c h -> sole (insert c h d) h.
+Hypothesis discard_idle : forall c h k, Inv c -> pending c h k -> sole c h -> idle (discard c h).
+Hypothesis put_idle : forall c h, Inv c -> held c h -> sole c h -> idle (put c h).
+
+Lemma read_idle c k c' r : GoodR c -> idle c ->
+  read C H K D get insert discard put fill c k = (c', r) ->
+  GoodR c' /\ idle c' /\ r = pure_answer K D fill k.
+Proof.
+  intros Hgood Hidle Hr. destruct (read_ok_rel _ _ _ _ Hgood Hr) as [Hg' Hres].
+  unfold read in Hr. destruct (get c k) as [c1 g] eqn:Hget.
+  destruct (get_ok _ _ _ _ (proj1 Hgood) Hget) as [Hi1 [_ Hg]].
+  pose proof (get_idle _ _ _ _ (proj1 Hgood) Hidle Hget) as Hso.
+  destruct g as [h d|h|]; [| |contradiction].
+  - destruct Hg as [Hc Hh]. inversion Hr; subst c' r; clear Hr.
+    split; [exact Hg'|]. split; [now apply put_idle|].
+    unfold pure_answer. now rewrite (proj2 Hgood _ _ Hc).
+  - unfold pure_answer in *. destruct (fill k) as [d|] eqn:Hf; inversion Hr; subst c' r; clear Hr.
+    + destruct (insert_ok _ _ _ d Hi1 Hg) as [Hi2 [Hh2 _]].
+      split; [exact Hg'|]. split; [|reflexivity].
+      apply put_idle; [exact Hi2|exact Hh2|]. now apply insert_sole with (k := k).
+    + split; [exact Hg'|]. split; [|reflexivity]. now apply discard_idle with (k := k).
+Qed.
+
+Theorem pagecache_never_busy : forall ks,
+  Forall2 (fun k r => r = pure_answer K D fill k) ks
+          (fst (run C H K D get insert discard put fill init ks)).
+Proof.
+  assert (Hgen : forall ks c, GoodR c -> idle c ->
+    Forall2 (fun k r => r = pure_answer K D fill k) ks
+            (fst (run C H K D get insert discard put fill c ks))).
+  { induction ks as [|k ks IH]; intros c Hg Hid; [constructor|].
+    cbn [run]. destruct (read C H K D get insert discard put fill c k) as [c1 r] eqn:Hr.
+    destruct (read_idle _ _ _ _ Hg Hid Hr) as [Hg1 [Hid1 Hres]].
+    pose proof (IH c1 Hg1 Hid1) as H1.
+    destruct (run C H K D get insert discard put fill c1 ks) as [rs c2]. cbn [fst] in *.
+    constructor; assumption. }
+  intro ks. apply Hgen; [|exact init_idle]. split; [exact init_inv|].
+  intros k d Hc. exfalso. exact (init_empty k d Hc).
+Qed.
+
+End PageCacheRel.
